@@ -71,11 +71,18 @@ def to_geojson(
     --------
     :func:`.write_geojson`
     """
-    return geojson.FeatureCollection(_dumpable_iterator(
-        geojson.Feature(geometry=polygon, properties={
-            'linear_index': i,
-            'index': dataset.ems.wind_index(i),
+    def feature(linear_index: int, polygon: shapely.Polygon) -> geojson.Feature:
+        feature = geojson.Feature(properties={
+            'linear_index': linear_index,
+            'index': dataset.ems.wind_index(linear_index),
         })
+        # geojson geometry classes round coordinates to 6 decimal places.
+        # Set the geometry mapping directly to keep the coordinates as they are.
+        feature['geometry'] = shapely.geometry.mapping(polygon)
+        return feature
+
+    return geojson.FeatureCollection(_dumpable_iterator(
+        feature(i, polygon)
         for i, polygon in enumerate(dataset.ems.polygons)
         if polygon is not None
     ))
